@@ -372,6 +372,10 @@ class Interp:
         v = fr.lookup(name)
         if v is not None:
             return v
+        owner = getattr(fr, "class_owner", None)
+        if owner is not None and name in owner.class_attrs:
+            # the body of a class sees the names bound earlier in that body
+            return self.class_attr_value(owner, name, owner.class_attrs[name])
         mod = fr.module
         if (mod.name, name) in self.module_consts:
             return self.module_consts[(mod.name, name)]  # a module binding, possibly re-assigned through `global`
@@ -1653,7 +1657,7 @@ class Interp:
             if m is not None:
                 return VFunc(m, None)
             ca = base.cls.find_class_attr(attr)
-            if ca is not None and isinstance(ca[1], _MUTABLE_DISPLAY):
+            if ca is not None and isinstance(ca[1], _MUTABLE_DISPLAY + (ast.Call,)):
                 return self.class_attr_value(ca[0], attr, ca[1])  # one object per class, shared by everything that reads it
             if ca is not None:
                 fr = Frame(None, ca[0].module, {})
@@ -1686,6 +1690,7 @@ class Interp:
         key = (owner.qualname if hasattr(owner, "qualname") else owner.name, attr)
         if key not in cache:
             fr = Frame(None, owner.module, {})
+            fr.class_owner = owner
             self.frames.append(fr)
             try:
                 v = self.eval(expr)
@@ -1757,7 +1762,7 @@ class Interp:
         if m is not None:
             return VFunc(m, objv)
         ca = cls.find_class_attr(attr)
-        if ca is not None and isinstance(ca[1], _MUTABLE_DISPLAY):
+        if ca is not None and isinstance(ca[1], _MUTABLE_DISPLAY + (ast.Call,)):
             # a dictionary / list written in the class body is ONE object: every instance (of every subclass) that does not
             # assign the attribute itself reads and mutates that same object
             return self.class_attr_value(ca[0], attr, ca[1])
